@@ -138,3 +138,39 @@ def sweep_signature(r):
     else:
         sym = "other:%s:%s" % (kind, ev.get("op", ""))
     return "%s|%s|%s" % (where, then, sym)
+
+
+READ_OPS = ("Find", "Get", "Count", "Scan")
+
+
+def validate_skipping(c, traces, cfg, classify, max_skips=12, chunk=40, parallel=6):
+    """Trace validation that keeps going past rejections which are listed known findings: classify(r) -> (signature,
+    what).  A rejection whose signature is a known finding is reported (KNOWN-FINDING, once) and, when the rejected
+    event is a pure observation (read operation / Observe), that event is dropped and the trace validated again so
+    that its remainder is still checked.  Anything else is reported as a violation.  Returns the Counter of classes."""
+    import collections
+    classes = collections.Counter()
+    hdr = {n: h for n, h, _ in traces}
+    cur = {n: list(evs) for n, _, evs in traces}
+    pending = [n for n, _, _ in traces]
+    skips = collections.Counter()
+    while pending:
+        rej = c.validate_traces("TxnStoreTrace", cfg, [(n, [norm(e) for e in cur[n]]) for n in pending],
+                                chunk=chunk, parallel=parallel)
+        nxt = []
+        for r in rej:
+            n = r["trace"]
+            r["header"] = hdr[n]
+            r["raw"] = cur[n]
+            sig, what = classify(r)
+            classes[sig] += 1
+            raw = cur[n][r["index"]] if 0 <= r["index"] < len(cur[n]) else {}
+            known = c.is_known(sig)
+            c.report(sig, what, dict(trace=n, header=hdr[n], rejected_index=r["index"], events=cur[n]))
+            droppable = raw.get("ev") == "Observe" or (raw.get("ev") == "Op" and raw.get("op") in READ_OPS)
+            if known and droppable and skips[n] < max_skips:
+                skips[n] += 1
+                cur[n] = cur[n][:r["index"]] + cur[n][r["index"] + 1:]
+                nxt.append(n)
+        pending = nxt
+    return classes
